@@ -7,6 +7,7 @@ import PyElf.Spec.DwarfStructs
 import PyElf.Model.Env
 import PyElf.Driver.C16
 import PyElf.Driver.Tie
+import PyElf.Driver.C11
 import PyElf.Driver.C10
 import PyElf.Driver.C02
 import PyElf.Driver.C04
@@ -72,6 +73,7 @@ def handle (req : Json) : Except String Json := do
   | "con" => handleCon req
   | "C16" => Driver.C16.handle req
   | "tie" => Driver.Tie.handle req
+  | "C11" => Driver.C11.handle req
   | "C10" => Driver.C10.handle req
   | "C02" => Driver.C02.handle req
   | "C04" => Driver.C04.handle req
